@@ -503,6 +503,7 @@ int main()
           sc.s->payload = MakePayload(rng, std::stoul(m["ssz"]), sc.marker);
           sc.c->expect = sc.s->payload.size();
           sc.s->expect = sc.c->payload.size();
+          if(plain != "none") sc.c->expect = sc.s->expect = 1; // keep trying to receive from the non-TLS peer
           if(m.count("rsz")) sc.c->rsz = sc.s->rsz = std::stoul(m["rsz"]);
           bool shared = m["shared"] == "1";
           if(sc.c->kind == "async") sc.dc = std::make_shared<Driver>();
@@ -580,6 +581,21 @@ int main()
             vos::name_fd(sc.rawFd, "raw");
             sc.s.reset();
             Wrap(sc, *sc.c, std::move(cli), sc.dc, dcn);
+          }
+          for(auto *e : {sc.c.get(), sc.s.get()}) {
+            if(!e) continue;
+            // kernel / engine knobs (not library API): small socket buffers make congestion reachable with
+            // small payloads, a small TLS record size makes many-record sends reachable with small payloads
+            if(m.count("bufs")) {
+              int b = std::stoi(m["bufs"]);
+              (void)::setsockopt(e->fd, SOL_SOCKET, SO_SNDBUF, &b, sizeof(b));
+              (void)::setsockopt(e->fd, SOL_SOCKET, SO_RCVBUF, &b, sizeof(b));
+              // loopback's MSS (64 KiB) is larger than such a buffer, which makes the kernel's silly-window
+              // avoidance stall the stream for hundreds of ms of REAL time; a small MSS avoids that
+              int mss = 1000;
+              (void)::setsockopt(e->fd, IPPROTO_TCP, TCP_MAXSEG, &mss, sizeof(mss));
+            }
+            if(m.count("frag") && e->ssl) SSL_set_max_send_fragment(e->ssl, std::stol(m["frag"]));
           }
           if(sc.c) PushSeg(*sc.c, m.count("segc") ? std::stol(m["segc"]) : 0, 100000);
           if(sc.s) PushSeg(*sc.s, m.count("segs") ? std::stol(m["segs"]) : 0, 100000);
@@ -675,7 +691,8 @@ int main()
             har::obs("state " + e->name + " sent=" + std::to_string(e->kind == "async" ? (e->SendDone() ? e->payload.size() : 0) : e->sentOff) +
                      " failed=" + (e->failed ? "1" : "0") + " disc=" + std::to_string(e->disc) +
                      " init=" + (e->ssl && SSL_is_init_finished(e->ssl) ? "1" : "0") +
-                     " ver=" + (e->ssl ? SSL_get_version(e->ssl) : "-"));
+                     " ver=" + (e->ssl ? SSL_get_version(e->ssl) : "-") +
+                     " pending=" + std::to_string(e->ssl ? SSL_pending(e->ssl) : 0));
           }
           if(sc.rawFd >= 0) {
             har::obs("rawgot " + har::hex(sc.rawGot));
